@@ -45,9 +45,9 @@ def positional(netlist, drop=()):
     for lib in netlist.libraries:
         defs = []
         for d in lib.definitions:
-            ports = tuple((data_items(p, drop), p.direction.name, bool(p.is_downto), bool(p.is_scalar),
+            ports = tuple((data_items(p, drop), p.direction.name, bool(p.is_downto), bool(getattr(p, "_is_scalar", p.is_scalar)),
                            p.lower_index, len(p.pins)) for p in d.ports)
-            cables = tuple((data_items(c, drop), bool(c.is_downto), bool(c.is_scalar), c.lower_index,
+            cables = tuple((data_items(c, drop), bool(c.is_downto), bool(getattr(c, "_is_scalar", c.is_scalar)), c.lower_index,
                             tuple(tuple(endpoint(x, d, defpos) for x in wr.pins) for wr in c.wires))
                            for c in d.cables)
             kids = tuple((data_items(i, drop), refkey(i.reference), len(i.pins)) for i in d.children)
